@@ -48,7 +48,9 @@ for p in props:
                            text="Partial (necessary-condition) claim decided by static analysis of the type-checked program: " + spec.EXPLANATION,
                            design_ref="DESIGN.md section 5, " + pid),
         level_note=getattr(spec, "LEVEL_NOTE", "") + "; trusted base: rustc MIR construction and instance resolution, the closed list of "
-        "external higher-order function models (lint/program.py HOF_MODELS), rule tables in lint/spec written from the property/C11/std docs",
+        "external higher-order function models (lint/program.py HOF_MODELS), the semantics-preserving program normalisation (lint/normalize.py), "
+        "rule tables in lint/spec written from the property/C11/std docs, and - for the cross-checks G0/G1 - the reviewed reference tree "
+        "recorded in lint/reference.json",
         technique=TECH[pid],
     ))
 
@@ -68,9 +70,12 @@ manifest = dict(
              kind_free_text="rustc_private driver (nightly): dumps items, MIR bodies, resolved per-instance call graph and drop glue of /repo as JSON; encodes no rule"),
         dict(name="lint", path="lint/", serves_properties=[p["id"] for p in props],
              kind_free_text="Python analyses over the facts (reachability, must-pass-through, dominating guards, path-sensitive partial evaluation, who-may-write, "
-             "expression reconstruction) and per-property rule tables in lint/spec"),
+             "expression reconstruction) and per-property rule tables in lint/spec; the extracted program is first normalised "
+             "(lint/normalize.py: renames, closure numbers, parameter order, std combinators, private-helper inlining - all semantics "
+             "preserving) against the reference data in lint/reference.json, which also feeds the cross-checks G0/G1"),
         dict(name="selftest", path="selftest/", serves_properties=[p["id"] for p in props],
-             kind_free_text="mutant corpus applied to scratch copies: shows each rule fires and names the instance (thorough tier; evidence about the checker only)"),
+             kind_free_text="mutants, pre-fix trees, independently seeded breakages and behaviour-preserving refactorings applied to scratch copies: shows each rule fires "
+             "and names the instance, and stays silent on equivalent code (thorough tier; evidence about the checker only)"),
     ],
     checks=checks,
     notes="Static analysis only: nothing of /repo is executed by any check. All claims are partial (necessary structural conditions, level 'other'); "
